@@ -167,7 +167,7 @@ func variants(name string) []variant {
 		case elemTy == cty.Number:
 			alts = []cty.Value{cty.NumberIntVal(9), cty.NumberIntVal(0)}
 		case elemTy == cty.String:
-			alts = []cty.Value{cty.StringVal("q"), cty.StringVal("b")}
+			alts = []cty.Value{cty.StringVal("q"), cty.StringVal("b"), cty.StringVal("")}
 		}
 		alts = append(alts, cty.UnknownVal(elemTy))
 		for _, a := range alts {
@@ -194,6 +194,22 @@ func unmarkDeep(v cty.Value) cty.Value {
 	return u
 }
 
+// nullInSet reports whether a set somewhere in v has a null element.
+func nullInSet(v cty.Value) bool {
+	found := false
+	_ = cty.Walk(v, func(_ cty.Path, x cty.Value) (bool, error) {
+		if x.IsKnown() && !x.IsNull() && x.Type().IsSetType() {
+			for it := x.ElementIterator(); it.Next(); {
+				if _, ev := it.Element(); ev.IsNull() {
+					found = true
+				}
+			}
+		}
+		return !found, nil
+	})
+	return found
+}
+
 // findLeak evaluates expr under every content of every variant group of the
 // variable and returns a description of a laundering pair, or "".
 func findLeak(expr hclsyntax.Expression, name string) (string, int) {
@@ -215,6 +231,14 @@ func findLeak(expr hclsyntax.Expression, name string) (string, int) {
 					continue
 				}
 				pairs++
+				// Trusted base: go-cty cannot mark the elements of a set individually and its conversion of a
+				// tuple / list with a marked *null* element to a set drops that element's mark altogether
+				// (convert.Convert([null marked], set(T)) = set[null]). A run whose unmarked result holds a
+				// null inside a set is therefore not judged.
+				if (!a.out.ContainsMarked() && nullInSet(a.out)) || (!b.out.ContainsMarked() && nullInSet(b.out)) {
+					counters.Add("go_cty_null_set_element_mark_loss_not_judged", 1)
+					continue
+				}
 				if !a.out.ContainsMarked() || !b.out.ContainsMarked() {
 					return fmt.Sprintf("variable %s (%s):\n  %s = %s  ->  %s\n  %s = %s  ->  %s\nthe results differ, so both depend on the marked variable, but at least one carries no mark",
 						name, vr.desc, name, vfmt.V(a.in), vfmt.V(a.out), name, vfmt.V(b.in), vfmt.V(b.out)), pairs
